@@ -21,8 +21,17 @@ import sys
 import time
 
 ROOT = '/verif'
+OUT = os.environ.get('VERIF_OUT') or ROOT      # development only: where evidence / replays go
 PY = '/verif/.venv/bin/python'
 PLAIN_PY = '/venv/bin/python'
+
+
+def pythonpath(*extra):
+    """PYTHONPATH for child processes.  VERIF_REPO (development only: seeded-change
+    runs against a scratch worktree) is put first so that `formulas` is imported
+    from there; registered checks never set it and import /repo's working tree."""
+    parts = [os.environ['VERIF_REPO']] if os.environ.get('VERIF_REPO') else []
+    return os.pathsep.join(parts + [ROOT] + [e for e in extra if e])
 
 
 def src_hash(obj):
@@ -104,13 +113,14 @@ class Check:
         """source: text of a standalone python script that exits 1 iff the
         violation reproduces on /repo (run with /venv/bin/python)."""
         self._replay_n += 1
-        path = os.path.join(ROOT, 'replays', '%s-%d.py' % (self.pid, self._replay_n))
+        os.makedirs(os.path.join(OUT, 'replays'), exist_ok=True)
+        path = os.path.join(OUT, 'replays', '%s-%d.py' % (self.pid, self._replay_n))
         with open(path, 'w') as f:
             f.write(source)
         return path
 
     def run_replay(self, path, timeout=300):
-        env = dict(os.environ, PYTHONPATH='/verif', PYTHONWARNINGS='ignore')
+        env = dict(os.environ, PYTHONPATH=pythonpath(), PYTHONWARNINGS='ignore')
         try:
             p = subprocess.run([PLAIN_PY, path], capture_output=True, text=True,
                                timeout=timeout, env=env, cwd=ROOT)
@@ -210,8 +220,8 @@ class Check:
             'level': self.level, 'coverage': cov, 'assumptions': self.assumptions,
             'wall_s': round(time.time() - self.t0, 1), 'violations': self.violations,
         }
-        os.makedirs(os.path.join(ROOT, 'evidence'), exist_ok=True)
-        with open(os.path.join(ROOT, 'evidence', self.pid + '.json'), 'w') as f:
+        os.makedirs(os.path.join(OUT, 'evidence'), exist_ok=True)
+        with open(os.path.join(OUT, 'evidence', self.pid + '.json'), 'w') as f:
             json.dump(ev, f, indent=1, default=str)
         print('[%s] %s: %d obligations, %d discharged, %d inconclusive, %d known, %d violated, '
               '%d harness errors, %.0fs' % (self.pid, self.tier, n, len(dis), len(inc),
